@@ -19,6 +19,8 @@ static bool command_invoke(struct ostream *os)
 }
 /* ostream::flush: pushes buffered data out; may fail (badbit) */
 static void os_flush(struct ostream *os) { if (!os->bad && nondet_bool()) os->bad = 1; g_flushed = 1; }
+/* fflush(stdout) of the C library: it knows nothing of what std::cout holds or of a failure std::cout has already met */
+static int c_fflush_stdout(void) { return nondet_bool() ? -1 : 0; }
 #include "dfs_main_tail.inc"
 
 static int dfs_main_tail(bool show_config)
